@@ -147,7 +147,13 @@ static void build_good(const std::string& lt, int shape, int idx, vh::Rng& rng, 
     // PPI: 8-byte header (version, flags, length, dlt) in front of an Ethernet or 802.11 frame serialised by libtins
     bool wifi = shape % 4 == 3; std::unique_ptr<PDU> in(wifi ? dot11(shape % 3, idx, rng, salt) : ether(shape, idx, rng, salt)); Bytes ib = in->serialize();
     uint32_t d = wifi ? DLT_IEEE802_11 : DLT_EN10MB; uint8_t h[8] = {0, 0, 8, 0, (uint8_t)d, (uint8_t)(d >> 8), 0, 0};
-    f.bytes.assign(h, h + 8); f.bytes.insert(f.bytes.end(), ib.begin(), ib.end()); f.how = "dump";
+    // half of the 802.11 frames carry the 802.11-Common field (type 2, 20 octets: TSF, flags, rate, frequencies, ...); its flag bit 0
+    // says that the frame ends in a 4-octet FCS, which the parser has to leave out of the 802.11 frame
+    Bytes fields;
+    if (wifi && (idx + salt) % 2 == 0) { bool fcs = (idx / 2) % 2 == 0; uint8_t fh[4] = {2, 0, 20, 0}; fields.assign(fh, fh + 4); Bytes c(20, 0); c[0] = (uint8_t)idx; c[8] = fcs ? 1 : 0; c[10] = 2; c[12] = 0x6c; c[13] = 0x09; fields.insert(fields.end(), c.begin(), c.end());
+        if (fcs) { ib.push_back(0xde); ib.push_back(0xad); ib.push_back(0xbe); ib.push_back(0xef); } }
+    h[2] = (uint8_t)(8 + fields.size());
+    f.bytes.assign(h, h + 8); f.bytes.insert(f.bytes.end(), fields.begin(), fields.end()); f.bytes.insert(f.bytes.end(), ib.begin(), ib.end()); f.how = "dump";
 }
 static void build_frame(const std::string& lt, const vh::Json& d, int idx, int n, vh::Rng& rng, Frame& f) {
     f.want = d["cls"].str(); f.sec = d["ts"][0].num(); f.usec = d["ts"][1].num(); int shape = (int)d["pkt"].num();
@@ -160,7 +166,9 @@ static void build_frame(const std::string& lt, const vh::Json& d, int idx, int n
         // truncations of a good frame, accepted only if the parser really throws malformed_packet; last resort: one byte
         size_t L = g.bytes.size();
         for (int t = 0; t < 12; ++t) {
+            // the first try of a PPI frame cuts 1..3 octets behind the PPI header (whatever its fields say about the frame's end)
             static const size_t SMALL[] = {1, 2, 3, 7}; size_t cut = t < 8 ? 1 + rng.below((uint32_t)(L > 1 ? L - 1 : 1)) : SMALL[t - 8];
+            if (t == 0 && lt == "PPI" && L > 4 && rng.coin()) cut = (size_t)(g.bytes[2] | (g.bytes[3] << 8)) + 1 + rng.below(3);
             if (cut >= L) continue;
             f.bytes.assign(g.bytes.begin(), g.bytes.begin() + cut); classify(lt, f); if (f.cls == "Malformed") return;
         }
